@@ -6,5 +6,5 @@ mkdir -p $V/build/ocaml && cd $V/build/ocaml
 rm -f model.ml model.mli
 timeout 600 coqc -Q $V/coq LogV $V/coq/Extract/Extract.v -o $V/build/ocaml/Extract.vo > extract.log 2>&1 || { cat extract.log; exit 1; }
 cp $V/ocaml/*.ml .
-FILES="model.mli model.ml main_common.ml $(cd $V/ocaml && ls c*.ml | sort | tr '\n' ' ') main.ml"
+FILES="model.mli model.ml main_common.ml c01.ml $(cd $V/ocaml && ls c*.ml | grep -v "^c01.ml" | sort | tr '\n' ' ') main.ml"
 timeout 600 ocamlfind ocamlopt -O3 -w -a -unboxed-types 2>/dev/null $FILES -o $V/build/modelrun || timeout 600 ocamlfind ocamlopt -w -a $FILES -o $V/build/modelrun
